@@ -176,7 +176,8 @@ class Model:
                     src = f.read()
             self.modules[m] = Module(m, path, src)
         # tuple records (namedtuple / NamedTuple) are written as the plain tuples they are (records.py)
-        from .records import detuple, decontainer, dewalrus, deconst, deaccessor
+        from .records import detuple, decontainer, dewalrus, deconst, deaccessor, deannotate
+        n_ann = deannotate([m.tree for m in self.modules.values()])
         n_acc = deaccessor([m.tree for m in self.modules.values()])
         n_walrus = dewalrus([m.tree for m in self.modules.values()])
         n_const = deconst({nm_: m.tree for nm_, m in self.modules.items()})
@@ -186,7 +187,8 @@ class Model:
         self.record_stats['walrus_hoisted'] = n_walrus
         self.record_stats['int_constants_inlined'] = n_const
         self.record_stats['wrapper_properties_dropped'] = n_acc
-        if n_acc or self.record_stats['creations'] or self.record_stats['reads'] or self.record_stats['container_rewrites'] or n_walrus or n_const:
+        self.record_stats['type_hints_dropped'] = n_ann
+        if n_ann or n_acc or self.record_stats['creations'] or self.record_stats['reads'] or self.record_stats['container_rewrites'] or n_walrus or n_const:
             for m in self.modules.values():
                 for node in ast.walk(m.tree):
                     for ch in ast.iter_child_nodes(node):
